@@ -89,6 +89,10 @@ CLAIMS["C14"] = ("daemon", "structure-aware fuzzing with rapid: requests generat
     "Requests for every peer-facing RPC are generated by reflection over the message descriptors (absent/zero/typical/hostile per field, every oneof arm) and sent to a real daemon with its interceptors; afterwards probe calls must succeed on every service and the beacon loop must still tick.",
     "Bounds are real-time (5 s vs. normal milliseconds) and re-examined before they count.", "DESIGN.md §3 C14")
 
+CLAIMS["C15"] = ("daemon", "property-based scenario generation (rapid) + exhaustive byte scan of every emitted artefact for every secret scalar under 15 encodings, with a positive control; file-mode check under umask 0/022",
+    "All messages, answers, HTTP bodies, log lines and files produced by generated DKG / resharing / beacon-production scenarios are scanned for the long-term keys and shares; the scanner is validated in every case by finding them where they must be.",
+    "Whole-scalar encodings only.", "DESIGN.md §3 C15")
+
 PENDING_REASON = "check not built yet in this session (planned, see DESIGN.md §3); not claimed until it exists and is silent on the unchanged tree"
 
 
